@@ -1,7 +1,7 @@
 SPECIFICATION Spec
 CONSTANTS
-  NP = 3
-  NA = 2
+  NP = 2
+  NA = 3
   MaxStar = 2
   MaxTD = 2
   GenSigs = TRUE
